@@ -390,8 +390,8 @@ def run(tier):
         functions_encoded=["Compiler.compile_c_stmt", "Compiler.transform_insn", "Compiler.compile_insn", "RZILTransformer.reset",
                            "ILOpsHolder.clear", "HexagonTransformerExtension.reset_flags / set_token_meta_data / get_meta (CrossHair)",
                            "class-level state of Compiler, PreprocessorHexagon, HexagonTransformerExtension"],
-        registration_histories=dict(cases=len(REG_BAD), agreeing=nreg_ok, explanation="(e) Compiler.add_sub_routine with a failing body, then the corrected "
-                                    "sub-routine under the same name, in a fresh process each; definition text and two callers vs a process that only registers the corrected one"),
+        registration_histories=dict(cases=len(REG_BAD) + 1, agreeing=nreg_ok, explanation="(e) another Compiler instance of the same process registered the same and another name before (1 case); Compiler.add_sub_routine with a failing body, then the corrected "
+                                    "sub-routine under the same name, in a fresh process each; definition text and three callers vs a process that only registers the corrected one"),
         long_histories=dict(programs=len(lprogs), orders=norders, programs_agreeing=nlong_ok,
                             explanation="(d) every program of the mixed family + the pool + interleaved failing inputs compiled once per process in "
                                         f"{norders} different seeded orders (two instances in turn, entry point fixed per program): status, attributes and "
